@@ -423,6 +423,50 @@ def bytes_of_type_table(prog, res):
               "bytes_of_image no longer multiplies by bytes_of_type"))
 
 
+def packet_forward(prog, res, rule="R-PACKET-FORWARD"):
+    """What the sink hands to storage_append is a packet: a chain of whole frames.  The HAL must hand the
+    driver that same packet - the frame pointer it received and the byte count end - beg - not a region that
+    starts at a byte cursor it advanced itself (a count a device reports back need not be a frame boundary)."""
+    from .. import congr
+    f = prog.func("storage_append")
+    res.touched(f)
+    pb, pe = f.params[1], f.params[2]
+    n = 0
+    for b, i, s in f.all_stmts():
+        for c in ir.calls_in(s):
+            if c.get("fn") or "append" not in ir.render(c.get("callee") or {}):
+                continue
+            args = c.get("args", [])
+            if len(args) < 3:
+                continue
+            n += 1
+            a1 = ir.strip(congr.resolve_at(prog, f, (b.id, i), args[1]))
+            while isinstance(a1, dict) and a1.get("k") == "cast":
+                a1 = ir.strip(a1["e"])
+            ok_ptr = isinstance(a1, dict) and a1.get("k") == "var" and a1.get("id") == pb.get("id")
+            # the count: &local whose value at the call is end - beg
+            a2 = ir.strip(args[2])
+            ok_cnt = False
+            if isinstance(a2, dict) and a2.get("k") == "addr" and ir.strip(a2["e"]).get("k") == "var":
+                d = congr.reaching_def(f, (b.id, i), ir.strip(a2["e"])["id"])
+                d = ir.strip(congr.inline_expr(prog, f, d)) if isinstance(d, dict) else None
+                if isinstance(d, dict) and d.get("k") == "bin" and d.get("op") == "-":
+                    ids_l = {y.get("id") for y in ir.walk(d["l"]) if isinstance(y, dict) and y.get("k") == "var"}
+                    ids_r = {y.get("id") for y in ir.walk(d["r"]) if isinstance(y, dict) and y.get("k") == "var"}
+                    ok_cnt = ids_l == {pe.get("id")} and ids_r == {pb.get("id")}
+            inst = "storage_append: the driver's append receives the caller's packet (line %s)" % s.get("line")
+            if ok_ptr and ok_cnt:
+                res.oblige(rule, inst, True, "frame pointer = beg, count = end - beg", f.loc(s))
+            else:
+                res.fail(rule, inst, "%s|storage_append" % rule, f.loc(s),
+                         "storage_append hands the driver %s with a count that is %s: the region can start or end inside a frame, so the device no longer receives whole, chained frames"
+                         % ("the caller's frame pointer" if ok_ptr else "a pointer it computed itself (%s)" % ir.render(args[1]),
+                            "end - beg" if ok_cnt else "not end - beg of the caller's packet"))
+    if n == 0:
+        raise AnalysisBroken("storage_append no longer calls the driver's append slot")
+    return n
+
+
 def run(ctx, res):
     prog = ctx.program()
     res.extra["explanation"] = EXPLANATION
@@ -449,6 +493,8 @@ def run(ctx, res):
     from ..channelarith import rule_linear
     res.guard(rule_linear, prog, res)
     res.require_min("R-LIN", 15)
+    res.guard(packet_forward, prog, res)
+    res.require_min("R-PACKET-FORWARD", 1)
     res.require_min("WITNESS", 7)
     res.require_min("R-PRODUCER", 12)
     res.require_min("R-STEP", 6)
